@@ -19,6 +19,16 @@ func init() { monitors["C02"] = monC02 }
 
 // expectLeafType is the documented type table of C02.
 func (x *Ctx) expectLeafType(a *spec.Attr) attr.Type {
+	if a.Alt {
+		switch a.Leaf {
+		case spec.LInt64:
+			return tfx.AltInt64Type
+		case spec.LBool:
+			return tfx.AltBoolType
+		case spec.LString:
+			return tfx.AltStringType
+		}
+	}
 	switch a.Leaf {
 	case spec.LInt64:
 		return types.Int64Type
